@@ -1,3 +1,4 @@
+import Dbg.Lemmas.IsCompressed2
 import Dbg.Props.C08
 import Dbg.Props.C02
 import Dbg.Props.C09
@@ -485,6 +486,17 @@ theorem C04_sharded_eq_direct (K P : Nat) (reads : List Seq) (perm : Option (Arr
   have hg2 : g' = g2 := by have := Option.some.inj hcg2; exact congrArg Prod.fst this
   subst hg2
   exact ⟨g', ⟨K, outd.map (·.1), st⟩, ps.shardedEq outs g' paths hb hcg, ps.directEq outd hod, hsame, hginv, hpalend⟩
+
+/-- **C04 (the final graph is fully compressed by the crate's own check).** Under the same hypotheses `is_compressed` returns
+    `None` on the sharded pipeline's final graph: the `debug_assert!` that ends `compress_graph` cannot fire in the pipeline, and
+    the assertion the crate's sharded tests make on their samples holds for every read set. -/
+theorem C04_final_is_compressed (K P : Nat) (reads : List Seq) (perm : Option (Array Nat)) (st : Bool) (thr : Nat) (prune : Bool)
+    (sigmas : List (List Nat)) (dsigma : List Nat) (cfg : ShardCfg K P reads perm)
+    (hs : SigmasOK K P reads perm st thr sigmas dsigma) :
+    ∃ gs, sharded K P reads perm st thr prune sigmas = some gs ∧ Graph.isCompressed gs (fun _ _ => true) = none := by
+  obtain ⟨R, Ts, Td, ps⟩ := pipe_setup K P reads perm st thr prune sigmas dsigma cfg hs
+  obtain ⟨outs, g', paths, hb, hcg, hic⟩ := Compress.sharded_result_isCompressed ps.wfR ps.hesR Ts ps.sw sumReduce (fun _ _ => true) (fun _ _ => rfl)
+  exact ⟨g', ps.shardedEq outs g' paths hb hcg, hic⟩
 
 /-- **C04 (payload totals).** Under the same hypotheses: a node of the sharded pipeline's final graph and a node of the
     one-pass graph that have the same k-mers have the same payload — the count total of the node, saturating at 2^32-1,
